@@ -22,6 +22,14 @@ class StmtMixin(object):
         m(st)
         self.after_stmt(st)
 
+    def st_ImportFrom(self, st):
+        """`from warnings import warn` inside a function: only names whose calls are dropped (NOOP_CALLS) may be
+        imported this way; anything else stays outside the subset."""
+        for a in st.names:
+            if (a.asname or a.name) not in NOOP_CALLS:
+                raise Unsupported("local import of %s" % a.name)
+        self.dropped.add("local import of %s" % ", ".join(a.name for a in st.names))
+
     def after_stmt(self, st):
         fr = self.fr
         if fr.spec is None or not fr.spec.at or getattr(fr, "inlined", False):
